@@ -205,10 +205,13 @@ package services
 // terminating status, so a pod change re-syncs the backend
 
 //@ count TrackPod = (types.Tracker).TrackRefName
+// a pod is a draining server of the service only if it lives in the service's
+// namespace, is being deleted, was not lost with its node and still has an IP
 //@ func isTerminatingPod
-//@   props C01
+//@   props C01 C03 C16
 //@   requires svc != nil && pod != nil
 //@   modifies nothing
+//@   ensures only: result ==> svc.GetNamespace() == pod.GetNamespace() && pod.DeletionTimestamp != nil && pod.Status.Reason != "NodeLost" && pod.Status.PodIP != ""
 //@ end
 //@ func (*c).GetTerminatingPods
 //@   props C01
@@ -243,4 +246,17 @@ package services
 //@ func (*Services).setup
 //@   props C19
 //@   at call new#2 assert deny-list: converterOptions != nil && converterOptions.DisableKeywords == cfg.DisableKeywords
+//@ end
+
+// C13 — the reload queue is limited by --reload-interval
+//@ func (*Services).setup#limits
+//@   props C13
+//@   at call ReloadHAProxyRateLimiter#1 assert interval: $arg0 == cfg.ReloadInterval
+//@ end
+
+// C15 — the file a secret's certificate is written to is named after its
+// namespace and name: two tenants never share a file
+//@ func (*SSL).getCertificate
+//@   props C15
+//@   at call buildCertFromCrtAndKey#1 assert own-file: $arg1 == s.c.DefaultDirCerts + "/" + secret.Namespace + "_" + secret.Name + ".pem"
 //@ end
